@@ -71,7 +71,7 @@ ASSUMES = ['source = dense KS/phy-named directory with amplitudes.npy, consisten
            'earlier spike-subset files are present only when there is no raw data (otherwise they are regenerated)',
            'fresh (non-existing or empty) output directory, or (stage 6) a directory holding an earlier UNLABELLED export of the same source '
            'directory (the source brought back to the modelled regime in between: subset files written by the earlier export removed) with '
-           'force=True; re-export with a non-empty label is an open finding (notes, stage 6) and not drawn']
+           'force=True; re-export with a non-empty label is drawn only with VT_C13_LABEL_HISTORY=1 until the repair fix-c13-r5 of rename_with_label is on main (notes, stage 6)']
 TIMEOUT = {'quick': 60, 'thorough': 120}
 
 # spellings of the source directory as target (all must be refused) and of a fresh target (none may be refused)
@@ -154,6 +154,9 @@ CORPUS_HISTORY = [
     dict(history='same', curated='ops', raw=True, label='', corrupt=['uuids_short']), dict(history='same', curated='no', label='', corrupt=['npy_rows', 'delete_some']),
     dict(history='recurate', curated='same_file', label='', vec2d=True, target='fresh_symlink', corrupt=['uuids_junk', 'empty_files']),
 ]
+CORPUS_LABEL_HISTORY = [dict(history='same', label='probe00', raw=False, corrupt=[]), dict(history='recurate', label='probe00', raw=True, curated='nogap', corrupt=[]),
+                        dict(history='recurate', label='templates', curated='ops', corrupt=['uuids_long']), dict(history='same', label='a.b', corrupt=['delete_some']),
+                        dict(history='recurate', label='amps', curated='no', cluster_probes=True, labels=True, kslabel=True, corrupt=['npy_rows'])]
 CORPUS_LINKS = [
     dict(links='clusters', link_kind='abs', curated='ops', raw=False, clu_dtype='int32', label='probe00'),
     dict(links='clusters', link_kind='rel', curated='same_file', vec2d=True, raw=True, label=''),
@@ -270,10 +273,10 @@ def generate(tier, rng):
             continue
         if rng6.random() < 0.15:
             D13.set_links(c['inp'], rng6, rng6.choice(['clusters', 'clusters', 'copied', 'any', 'any', 'all']))
-        if c['inp']['target'].startswith('fresh') and not c['inp']['label'] and rng6.random() < 0.3:
+        if c['inp']['target'].startswith('fresh') and (D13.LABEL_HISTORY or not c['inp']['label']) and rng6.random() < 0.3:
             D13.set_history(c['inp'], rng6, rng6.choice(['same', 'recurate', 'recurate']))
     first6 = []
-    for force in CORPUS_HISTORY[:2] + CORPUS_LINKS[:2] + CORPUS_HISTORY[2:] + CORPUS_LINKS[2:]:
+    for force in CORPUS_HISTORY[:2] + CORPUS_LINKS[:2] + CORPUS_HISTORY[2:] + CORPUS_LINKS[2:] + (CORPUS_LABEL_HISTORY if D13.LABEL_HISTORY else []):
         for _ in range(reps):
             first6.append({'kind': 'convert', 'inp': D13.gen(rng6, **force)})
     return first6 + first + cases
